@@ -217,8 +217,65 @@ fn held_objects<B: Backend + 'static>(opts: &Opts, rep: &mut Report) {
     rep.count_n(&format!("{}.noise-calls-before-held-object-steps", B::NAME), noise.done);
 }
 
+/// password wraps whose cost parameters change from one operation to the next on the same thread:
+/// memory ladders (every KiB step up, down and mixed), time and parallelism steps, iteration counts
+fn parameter_ladders<B: Backend + 'static>(opts: &Opts, rep: &mut Report) {
+    if opts.shard != 7 % opts.nshards && opts.shard != 12 % opts.nshards && opts.only.is_none() {
+        return;
+    }
+    let stream = format!("c05.{}.ladder", B::NAME);
+    let mut rng = Rng::derive(opts.seed, &stream, opts.shard as u64);
+    let lk = local_key::<B>(&rng.arr());
+    let lk_raw = key_bytes(&lk);
+    let sk = secret_key::<B>(&B::gen_secret(&mut rng));
+    let sk_raw = key_bytes(&sk);
+    let mut ladders: Vec<Vec<Vec<u8>>> = vec![];
+    if B::VER % 2 == 1 {
+        let its: Vec<u32> = (1..=40).collect();
+        ladders.push(its.iter().map(|&i| pw_param_bytes(B::VER, i, 0, 1)).collect());
+        ladders.push(its.iter().rev().map(|&i| pw_param_bytes(B::VER, i, 0, 1)).collect());
+        ladders.push([1u32, 1000, 2, 999, 3, 1, 1000].iter().map(|&i| pw_param_bytes(B::VER, i, 0, 1)).collect());
+    } else {
+        let kib = |k: u64, t: u32, p: u32| pw_param_bytes(B::VER, t, k * 1024, p);
+        ladders.push((8..=48).map(|k| kib(k, 1, 1)).collect());
+        ladders.push((8..=48).rev().map(|k| kib(k, 1, 1)).collect());
+        ladders.push([8u64, 12, 16, 9, 24, 10, 32, 33, 17, 64, 8, 65, 31, 128, 8].iter().map(|&k| kib(k, 1, 1)).collect());
+        ladders.push((0..24).map(|_| kib(8 + rng.below(120) as u64, 1 + rng.below(3) as u32, 1)).collect());
+        ladders.push([(8u64, 1u32), (8, 2), (8, 3), (16, 3), (16, 1), (9, 2), (8, 1)].iter().map(|&(k, t)| kib(k, t, 1)).collect());
+        if B::NAME != "v4na" {
+            ladders.push([(16u64, 1u32), (16, 2), (32, 4), (17, 1), (32, 2), (64, 8), (16, 1)].iter().map(|&(k, p)| kib(k, 1, p)).collect());
+        }
+    }
+    for (li, ladder) in ladders.iter().enumerate() {
+        let mut history: Vec<String> = vec![];
+        for pb in ladder {
+            let params = pw_params::<B>(pb);
+            history.push(hx(pb));
+            for secret_kind in [false, true] {
+                let r = if secret_kind {
+                    guard(|| pw_wrap_secret(&sk, b"pw", &params).and_then(|w| pw_unwrap_secret::<B>(&w, b"pw")).map(|k| k == sk_raw))
+                } else {
+                    guard(|| pw_wrap_local(&lk, b"pw", &params).and_then(|w| pw_unwrap_local::<B>(&w, b"pw")).map(|k| k == lk_raw))
+                };
+                let kind = if secret_kind { Wk::PwSecret } else { Wk::PwLocal };
+                let sig = format!("C05|{}|{}", B::NAME, kind.name());
+                let d = |what: &str| json!({"backend": B::NAME, "kind": kind.name(), "what": what, "parameter_bytes_used_on_this_thread_in_order": history});
+                match r {
+                    Ok(Ok(true)) => {}
+                    Ok(Ok(false)) => rep.violation(&format!("{sig}|mismatch:parameter-ladder"), d("round trip returned a different key")),
+                    Ok(Err(e)) => rep.violation(&format!("{sig}|roundtrip-error:{}:parameter-ladder", err_kind(&e)), d("a password wrap with valid parameters failed after other parameter sets had been used on this thread")),
+                    Err(pn) => rep.violation(&format!("{sig}|panic:parameter-ladder"), d(&pn)),
+                }
+                rep.case(&format!("{}.{}.parameter-ladder", B::NAME, kind.name()), fnv_parts(&[B::NAME.as_bytes(), &[li as u8, secret_kind as u8], pb, &(history.len() as u64).to_le_bytes()]), true);
+            }
+        }
+        rep.sample_class(&format!("{}.parameter-ladder", B::NAME), 2, || json!({"backend": B::NAME, "ladder": history, "outcome": "every step round-trips"}));
+    }
+}
+
 fn backend<B: Backend + 'static>(opts: &Opts, rep: &mut Report) {
     related_secrets::<B>(opts, rep);
+    parameter_ladders::<B>(opts, rep);
     held_objects::<B>(opts, rep);
     let stream = format!("c05.{}", B::NAME);
     let mut idx = 0u64;
@@ -356,10 +413,120 @@ fn backend<B: Backend + 'static>(opts: &Opts, rep: &mut Report) {
 
 pub fn run(opts: &Opts) {
     let mut rep = Report::new("C05");
+    if opts.part.as_deref() == Some("kemzeros") {
+        kem_leading_zeros::<V1>(opts, &mut rep, "C05");
+        rep.set("rule", json!("k1.seal with the library's 512-byte random draw forced (LD_PRELOAD feed) to stored values whose RSA-KEM ciphertext starts with 1, 2 or 3 zero bytes: fixed blob length, unsealed by the library and by the reference"));
+        rep.finish(opts);
+        return;
+    }
     for_backends!(opts, backend, opts, &mut rep);
     rep.set(
         "rule",
-        json!("held objects: key objects created once, then hundreds of wrap/unwrap/seal/unseal round trips each preceded on the same thread by 1-3 library calls that must fail (forged tokens, invalid keys, corrupted or wrongly keyed blobs, refused encoders); related secrets: per kind 32 recipients / wrapping keys / passwords that differ from a base in one byte each (low-order end first, incl. counter-like all-zero bases), wrapped and unwrapped back to back on one thread, then all blobs unwrapped forwards and backwards; cases = (backend, kind in {local/secret-wrap.pie, local/secret-pw, seal}, wrapped key, wrapping key / password+params / recipient) wrapped with the library's randomness, serialised, parsed, unwrapped; body length compared with the format's table; 'repeat' cases wrap one tuple N times to vary the RNG outcome (counted once in distinct); RSA-KEM ciphertexts / ephemeral keys with a leading zero byte are counted"),
+        json!("parameter ladders: password wraps on one thread whose cost parameters change step by step (memory 8..48 KiB in 1 KiB steps up and down, mixed sizes, time / parallelism / iteration steps), each a full round trip; held objects: key objects created once, then hundreds of wrap/unwrap/seal/unseal round trips each preceded on the same thread by 1-3 library calls that must fail (forged tokens, invalid keys, corrupted or wrongly keyed blobs, refused encoders); related secrets: per kind 32 recipients / wrapping keys / passwords that differ from a base in one byte each (low-order end first, incl. counter-like all-zero bases), wrapped and unwrapped back to back on one thread, then all blobs unwrapped forwards and backwards; cases = (backend, kind in {local/secret-wrap.pie, local/secret-pw, seal}, wrapped key, wrapping key / password+params / recipient) wrapped with the library's randomness, serialised, parsed, unwrapped; body length compared with the format's table; 'repeat' cases wrap one tuple N times to vary the RNG outcome (counted once in distinct); RSA-KEM ciphertexts / ephemeral keys with a leading zero byte are counted"),
     );
     rep.finish(opts);
+}
+
+// ---- RSA-KEM ciphertexts with leading zero bytes (k1.seal) ------------------------------------------
+/// `pvmon kemsearch <file>`: for every RSA-4096 key of the pool find values r (top bits 01, as the
+/// library forces them) whose ciphertext r^e mod n starts with 1, 2 (and for key 0: 3) zero bytes.
+/// Run once; the result is committed as data/kemzeros.txt and re-verified whenever it is used.
+pub fn kem_search(opts: &Opts) {
+    use rsa::BigUint;
+    let out = opts.extra.first().expect("output file").clone();
+    let mut lines = String::new();
+    for (ki, der) in rsapool::rsa4096().iter().enumerate() {
+        let (n, e) = crate::prims::rsa_public_parts(&rsapool::public_of(der)).expect("pool key");
+        for zeros in 1..=(if ki == 0 { 3usize } else { 2 }) {
+            let found = std::sync::Mutex::new(None::<Vec<u8>>);
+            std::thread::scope(|sc| {
+                for t in 0..16u64 {
+                    let (n, e, found) = (&n, &e, &found);
+                    sc.spawn(move || {
+                        let mut rng = Rng::derive(0x6b656d, "kemsearch", (ki as u64) << 32 | (zeros as u64) << 8 | t);
+                        let mut i = 0u64;
+                        loop {
+                            i += 1;
+                            if i % 64 == 0 && found.lock().unwrap().is_some() {
+                                return;
+                            }
+                            let mut r = rng.bytes(512);
+                            r[0] = (r[0] & 0x7f) | 0x40;
+                            let c = BigUint::from_bytes_be(&r).modpow(e, n).to_bytes_be();
+                            if c.len() <= 512 - zeros {
+                                *found.lock().unwrap() = Some(r);
+                                return;
+                            }
+                        }
+                    });
+                }
+            });
+            let r = found.into_inner().unwrap().unwrap();
+            eprintln!("key {ki}: r with {zeros} leading zero byte(s) found");
+            lines.push_str(&format!("{ki} {zeros} {}\n", hex::encode(&r)));
+        }
+    }
+    std::fs::write(out, lines).expect("write");
+}
+
+/// `--part kemzeros` (under the RNG shim): the stored r values are fed to the library as its random
+/// draw; the sealed key must have the fixed length, unseal with the library and with the reference
+pub fn kem_leading_zeros<B: Backend>(opts: &Opts, rep: &mut Report, prop: &str) {
+    use paseto_core::version::{PkePublic, PkeSecret};
+    use rsa::BigUint;
+    if B::VER != 1 || !opts.wants_backend(B::NAME) {
+        return;
+    }
+    let Some(shim) = crate::rngshim::shim() else {
+        rep.inconclusive("RNG shim not loaded (LD_PRELOAD): forced RSA-KEM values did not run");
+        return;
+    };
+    let text = std::fs::read_to_string(concat!(env!("CARGO_MANIFEST_DIR"), "/data/kemzeros.txt")).unwrap_or_default();
+    let mut rng = Rng::derive(opts.seed, "c05.kemzeros", 0);
+    for (li, line) in text.lines().enumerate() {
+        if li % opts.nshards != opts.shard {
+            continue;
+        }
+        let mut it = line.split_whitespace();
+        let (Some(ki), Some(zeros), Some(rh)) = (it.next(), it.next(), it.next()) else { continue };
+        let (ki, zeros): (usize, usize) = (ki.parse().unwrap(), zeros.parse().unwrap());
+        let r = hex::decode(rh).expect("hex");
+        let der = &rsapool::rsa4096()[ki];
+        let pkd = rsapool::public_of(der);
+        let (n, e) = crate::prims::rsa_public_parts(&pkd).expect("pool key");
+        let c = BigUint::from_bytes_be(&r).modpow(&e, &n).to_bytes_be();
+        if c.len() != 512 - zeros {
+            rep.inconclusive(&format!("stored r for key {ki} does not give {zeros} leading zero bytes (data/kemzeros.txt is stale)"));
+            continue;
+        }
+        let (Ok(psk), Ok(ppk)) = (key_from_bytes::<B, PkeSecret>(der), key_from_bytes::<B, PkePublic>(&pkd)) else { continue };
+        for rep_i in 0..3 {
+            let key: [u8; 32] = rng.arr();
+            let lk = local_key::<B>(&key);
+            let (res, st) = shim.window(-1, -1, Some(&r), || guard(|| pke_seal(&lk, &ppk)));
+            let d = |what: &str, blob: &str| json!({"backend": B::NAME, "recipient_key": ki, "rsa_kem_ciphertext_leading_zero_bytes": zeros, "r": hx_short(&r), "what": what, "blob_len": blob.len(), "blob": blob.chars().take(200).collect::<String>(), "os_draws": st.draws});
+            rep.case(&format!("{}.seal.rsa-kem-{zeros}-leading-zero-bytes", B::NAME), fnv_parts(&[&r, &key, &[rep_i]]), true);
+            match res {
+                Ok(Ok(blob)) => {
+                    let (_, body) = split_paserk(&blob);
+                    if body.len() != Wk::Seal.overhead(1) + 32 {
+                        rep.violation(&format!("{prop}|{}|seal|length:rsa-kem-leading-zeros", B::NAME), d(&format!("body is {} bytes", body.len()), &blob));
+                    }
+                    if body.len() >= 80 + 512 - zeros && body[80..80 + zeros].iter().any(|&b| b != 0) && body.len() == 592 {
+                        rep.inconclusive("the fed r was not used as the library's draw (shim feed not effective)");
+                    }
+                    match guard(|| pke_unseal(&blob, &psk)) {
+                        Ok(Ok(k)) if k == key => {}
+                        other => rep.violation(&format!("{prop}|{}|seal|unseal-fails:rsa-kem-leading-zeros", B::NAME), d(&format!("own output not unsealed: {:?}", other.map(|r| r.map(|k| hx_short(&k)).map_err(|e| err_kind(&e)))), &blob)),
+                    }
+                    if crate::refimpl::pke_unseal::<crate::prims::Rc>(1, der, &body).map(|k| k.to_vec()) != Some(key.to_vec()) {
+                        rep.violation(&format!("{prop}|{}|seal|reference-cannot-unseal:rsa-kem-leading-zeros", B::NAME), d("the reference could not unseal the blob", &blob));
+                    }
+                    rep.sample_class(&format!("{}.seal.rsa-kem-{zeros}-leading-zero-bytes", B::NAME), 1, || d("fixed length; unsealed by library and reference", &blob));
+                }
+                Ok(Err(e)) => rep.violation(&format!("{prop}|{}|seal|wrap-error:{}:rsa-kem-leading-zeros", B::NAME, err_kind(&e)), d("seal failed", "")),
+                Err(pn) => rep.violation(&format!("{prop}|{}|seal|wrap-panic", B::NAME), d(&pn, "")),
+            }
+        }
+    }
 }
